@@ -76,6 +76,7 @@ func childMain(dir string) {
 	lastPhase := map[string]*atomic.Value{} // phase of the callback that returned last, per module
 	var hookDelays atomic.Int64
 
+	var runSteps func(who string, steps []Step, issuing func())
 	mk := func(name, phase string, b Behav) func() error {
 		if b.Nil {
 			return nil
@@ -94,6 +95,10 @@ func childMain(dir string) {
 				f["seen"] = seen
 			}
 			lg.Rec("begin", name, phase, f)
+			if phase == "prep" && k == 1 && len(sc.PrepOps[name]) > 0 {
+				// the program switches modules from inside a prep routine
+				runSteps("prep:"+name, sc.PrepOps[name], nil)
+			}
 			if sc.Conc != nil && k == 1 && name == sc.Conc.Park && phase == sc.Conc.ParkPhase {
 				// barrier: tell the other clients that the pass/shutdown of client 0 is
 				// in progress and stay inside this routine until they have issued their calls
@@ -184,7 +189,7 @@ func childMain(dir string) {
 	// runSteps executes a script of Enable/Disable/ManageModules/Shutdown calls as one
 	// client; before every ManageModules/Shutdown call `issuing` is invoked (after the
 	// call event has been recorded).
-	runSteps := func(who string, steps []Step, issuing func()) {
+	runSteps = func(who string, steps []Step, issuing func()) {
 		for _, s := range steps {
 			switch s.Op {
 			case "enable":
@@ -220,6 +225,12 @@ func childMain(dir string) {
 		lg.Rec("ret", "driver", "enable", map[string]any{"m": n, "changed": ch})
 	}
 
+	if ops := sc.PrepOps["globalprep"]; len(ops) > 0 {
+		modules.SetGlobalPrepFn(func() error {
+			runSteps("globalprep", ops, nil)
+			return nil
+		})
+	}
 	lg.Rec("call", "driver", "Start", nil)
 	err := modules.Start()
 	lg.Rec("ret", "driver", "Start", map[string]any{"err": errStr(err), "clean_exit": errors.Is(err, modules.ErrCleanExit)})
